@@ -422,9 +422,9 @@ class Intervals:
         args = [self.operand(a, stack, cbb) for a in t['args']]
         if name in LEN_CALLEES:
             return (0, ISIZE_MAX)
-        if name in ('std::cmp::Ord::min', 'core::cmp::Ord::min') and len(args) == 2 and all(args):
+        if name in ('std::cmp::Ord::min', 'core::cmp::Ord::min', 'std::cmp::min', 'core::cmp::min') and len(args) == 2 and all(args):
             return (min(args[0][0], args[1][0]), min(args[0][1], args[1][1]))
-        if name in ('std::cmp::Ord::max', 'core::cmp::Ord::max') and len(args) == 2 and all(args):
+        if name in ('std::cmp::Ord::max', 'core::cmp::Ord::max', 'std::cmp::max', 'core::cmp::max') and len(args) == 2 and all(args):
             return (max(args[0][0], args[1][0]), max(args[0][1], args[1][1]))
         if name in ('std::convert::From::from', 'std::convert::Into::into') and args and args[0] is not None:
             tr = ty_range(ty)
